@@ -121,6 +121,70 @@ access(all) contract C {
         }
     }
 
+    // ---- resources owned by the contract itself (a stored composite that is not a resource):
+    // same three kinds of fields as a resource, same operations, as contract functions
+    access(all) var opt: @{I}?
+    access(all) var arr: @[{I}]
+    access(all) var dict: @{String: {I}}
+
+    init() {
+        self.opt <- nil
+        self.arr <- []
+        self.dict <- {}
+    }
+
+    access(all) fun swapOpt(_ v: @{I}?): @{I}? {
+        let old <- self.opt <- v
+        return <- old
+    }
+    access(all) fun forceOpt(_ v: @{I}) { self.opt <-! v }
+    access(all) fun xchgOpt(_ v: @{I}?): @{I}? {
+        var w <- v
+        self.opt <-> w
+        return <- w
+    }
+    access(all) fun arrAppend(_ v: @{I}) { self.arr.append(<-v) }
+    access(all) fun arrRemove(_ i: Int): @{I} { return <- self.arr.remove(at: i) }
+    access(all) fun arrInsert(_ i: Int, _ v: @{I}) { self.arr.insert(at: i, <-v) }
+    access(all) fun arrSet(_ i: Int, _ v: @{I}): @{I} {
+        let old <- self.arr[i] <- v
+        return <- old
+    }
+    access(all) fun dictInsert(_ k: String, _ v: @{I}): @{I}? { return <- self.dict.insert(key: k, <-v) }
+    access(all) fun dictRemove(_ k: String): @{I}? { return <- self.dict.remove(key: k) }
+    access(all) fun dictForce(_ k: String, _ v: @{I}?) { self.dict[k] <-! v }
+
+    // rendering of what the contract owns, in the format of show (the contract itself: Q, uuid 0, tag 0)
+    access(all) fun showSelf(): String {
+        var s = "Q(0,0,"
+        if let o = &self.opt as &{I}? {
+            s = s.concat("S").concat(C.show(o))
+        } else {
+            s = s.concat("N")
+        }
+        s = s.concat(",[")
+        var i = 0
+        while i < self.arr.length {
+            if i > 0 { s = s.concat(";") }
+            s = s.concat(C.show(&self.arr[i] as &{I}))
+            i = i + 1
+        }
+        s = s.concat("],{")
+        let ks: [String] = []
+        for k in self.dict.keys {
+            var j = 0
+            while j < ks.length && ks[j] < k { j = j + 1 }
+            ks.insert(at: j, k)
+        }
+        var first = true
+        for k in ks {
+            if !first { s = s.concat(";") }
+            first = false
+            s = s.concat(k).concat(":").concat(C.show((&self.dict[k] as &{I}?)!))
+        }
+        return s.concat("})")
+    }
+
     access(all) fun mkR(_ tag: Int): @R {
         let r <- create R(tag)
         emit Made(uuid: r.uuid, evented: true)
